@@ -85,14 +85,14 @@ def get_human_readable_unit(interp, args, kwargs, node):
         return _inline(interp, 'Unit.get_human_readable_unit', args, kwargs, node)
     if is_conc_num(value):
         return _inline(interp, 'Unit.get_human_readable_unit', args, kwargs, node)
-    if interp.decide(real(value) == 0, "value == 0 (human readable)"):
-        return (value, unit)
-    # in refutation runs (finite instantiation) one alternative is enough: any counterexample found is replayed
-    k = interp.choose(3, "human-readable prefix") if interp.__dict__.get('text_forks', True) else 0
+    # no path forks: the result is an *alternative* value (which prefix is chosen is left open); it only feeds text
+    z = real(value) == 0
     r = fresh('hr', RS)
     interp.assume(r >= 0)
-    interp.__dict__.setdefault('hr_calls', []).append((value, unit, r, ('', 'm', 'u')[k] + base))
-    return (r, ('', 'm', 'u')[k] + base)
+    b1, b2 = fresh('hrp', BS), fresh('hrp', BS)
+    chain = IteV(b1, base, IteV(b2, 'm' + base, 'u' + base))
+    interp.__dict__.setdefault('hr_calls', []).append((value, unit, r, chain))
+    return (z3.If(z, real(value), r), IteV(z, unit, chain))
 
 
 def convert_from_storage_to_standard_format(interp, args, kwargs, node):
@@ -113,10 +113,11 @@ def convert_from_storage_to_standard_format(interp, args, kwargs, node):
         base = 'L'
     else:
         raise Raised('TypeError', getattr(node, 'lineno', None), 'Invalid type for what.')
-    k = interp.choose(3, "standard-format prefix") if interp.__dict__.get('text_forks', True) else 0
     r = fresh('sf', RS)
-    interp.__dict__.setdefault('sf_calls', []).append((what, q, r, ('', 'm', 'u')[k] + base))
-    return (r, ('', 'm', 'u')[k] + base)
+    b1, b2 = fresh('sfp', BS), fresh('sfp', BS)
+    chain = IteV(b1, base, IteV(b2, 'm' + base, 'u' + base))
+    interp.__dict__.setdefault('sf_calls', []).append((what, q, r, chain))
+    return (r, chain)
 
 
 MODULAR = {
